@@ -949,8 +949,9 @@ def check_victim_pair(rep, fl, rule="R16.5"):
     pushes = []
     for b, t in calls_to(body, "Vec::push"):
         a = [norm(x) for x in body.call_args(t)]
-        if is_call(a[1], "PolicyPair::new"):
-            pushes.append((b, t, a[1][2]))
+        cf_ = ctor_fields(facts, a[1]) or ctor_fields(facts, body.expand(a[1]))   # `PolicyPair::new(k, c)` or the literal
+        if cf_ is not None and cf_[0].endswith("PolicyPair") and "key" in cf_[1] and "cost" in cf_[1]:
+            pushes.append((b, t, (norm(cf_[1]["key"]), norm(cf_[1]["cost"]))))
     if len(pushes) != 1 or len(rems) != 1:
         rep.bad(rule, fl, body, "victim record", "expected one costs.remove and one victims.push(PolicyPair::new(..)) in add(), found %d / %d" % (len(rems), len(pushes)))
         return
@@ -973,7 +974,18 @@ def check_victim_pair(rep, fl, rule="R16.5"):
             if okc:
                 # and not reassigned in add() after the search (apart from its initialisation)
                 l = body.name_local.get(c_e[1])
-                others = [d for d in body.defs.get(l, []) if d[0] not in mv["region"] and norm(body.def_expr(d[0], d[1], True))[0] != "const"]
+                # (a plain copy of the search's own variable - the search lives in a helper, or fills a struct - is the same value)
+                def _is_init(e_):
+                    # a constant, also when it is spelled as a field of a constructor call: `PolicyPair::new(0, 0).cost`
+                    e_ = norm(e_)
+                    if e_[0] == "const":
+                        return True
+                    if e_[0] == "field":
+                        cf2 = ctor_fields(facts, e_[1])
+                        return cf2 is not None and norm(cf2[1].get(e_[2], ("?",)))[0] == "const"
+                    return False
+                others = [d for d in body.defs.get(l, []) if d[0] not in mv["region"] and not _is_init(body.def_expr(d[0], d[1], True))
+                          and norm(body.def_expr(d[0], d[1], True)) != V(mv["inner"]["cost"])]
                 if others:
                     okc = False
                     why = "%s is reassigned in add() after the minimum search" % c_e[1]
